@@ -71,11 +71,11 @@ CHECKS = {
          "parameter values without spaces; fake API follows Cloudflare v4 list semantics (count = items on the page)", "§3 C20"),
  "C18": ("model_checking", "E3 gosched",
          "stateless model checking of the real Dial under a controlled scheduler: sources rewritten at check time (goroutines, channels, select, WaitGroup, context, timers -> shims), all schedules up to a deviation bound in virtual time, monitors over the event log",
-         "For every scenario of the grid (1..3 (4) targets x 8 per-target plans x MaxConcurrency x delay/timeout x caller cancellation time) every schedule with at most 1 (2) deviations from the canonical one is executed on the real code; monitors check start order, in-flight bound, staggering (delay or one reported failure per early start), per-attempt timeout, first success wins, every other established connection closed exactly once, joined errors, prompt return on cancellation, cancelled context for attempts after the decision, and termination of every goroutine.",
+         "For every scenario of the grid (1..3 (4) targets x 8 per-target plans x MaxConcurrency x delay/timeout x caller cancellation time) every schedule with at most 1 (2) deviations from the canonical one (2 in the quick tier for scenarios with at most 2 targets) is executed on the real code; monitors check start order, in-flight bound, staggering (delay or one reported failure per early start), per-attempt timeout, first success wins, every other established connection closed exactly once, joined errors, prompt return on cancellation, cancelled context for attempts after the decision, and termination of every goroutine.",
          "computation takes zero virtual time; sequentially consistent memory at synchronisation granularity; IP-literal addresses; scripted DialFunc honouring its context; executions per scenario capped (cap reported when hit)", "§3 C18"),
  "C10": ("model_checking", "E3 gosched",
          "stateless model checking of the real NewConn under a controlled scheduler (sources rewritten at check time), all schedules up to a deviation bound in virtual time",
-         "For every combination of hello arrival (buffered, late, two fragments, never) x context end (never, cancelled by another thread at three times, cancelled by the caller right after the return, deadline) x keys, every schedule of caller, canceller, client and NewConn's own watcher goroutine with at most 3 (4) deviations is executed on the real code; monitors check prompt failure when the context ends first, and that after a successful return no deadline call starts, no deadline is left set and the caller's Read/Write succeed.",
+         "For every combination of hello arrival (buffered, late, two fragments, never) x context end (never, cancelled by another thread at three times, cancelled by the caller right after the return, deadline) x keys, every schedule of caller, canceller, client and NewConn's own watcher goroutine with at most 8 deviations (thorough: no bound, the complete schedule tree) is executed on the real code; monitors check prompt failure when the context ends first, and that after a successful return no deadline call starts, no deadline is left set and the caller's Read/Write succeed.",
          "zero-time computation; sequentially consistent memory at synchronisation granularity; scheduler-aware fake transport honouring deadlines", "§3 C10"),
  "C17": ("fault_enumeration", "E1 enum + E2 envx",
          "exhaustive enumeration of resolution worlds and caller configurations; every tree of per-attempt outcomes (ok / error / ECH rejection with and without retry configs) explored by re-execution; oracle on the DialFunc argument log",
